@@ -54,7 +54,14 @@ OpsMore ==
   \cup {Op("SetByIndex", i, 0, "", Arr(<<Num(8)>>)) : i \in 0..2}
   \cup {Op("Move", i, j, "", None) : i \in {0 - 1, 3}, j \in 0..1}
   \cup {Op("Move", i, j, "", None) : i \in 0..1, j \in {0 - 1, 3}}
-Ops == IF OpSet = "core" THEN OpsCore ELSE OpsCore \cup OpsMore
+\* the further read-only views of AstTree (iterator objects, member / position lookups, containers of nodes, paths, Cap, Raw)
+OpsView ==
+       {Op("Values", 0, 0, "", None), Op("Properties", 0, 0, "", None), Op("Cap", 0, 0, "", None), Op("Raw", 0, 0, "", None)}
+  \cup {Op("IndexPair", i, 0, "", None) : i \in Idx}
+  \cup {Op("IndexOrGetWithIdx", i, 0, k, None) : i \in 0..1, k \in Keys}
+  \cup {Op("UseNode", i, 0, "", None) : i \in 0..2}
+  \cup {Op("GetByPath", i, j, k, None) : i \in 0..1, j \in 2..3, k \in {"a", "b"}}
+Ops == IF OpSet = "core" THEN OpsCore ELSE OpsCore \cup OpsMore \cup OpsView
 
 \* paths that resolve in v, to depth d
 Paths(v, d) ==
